@@ -21,6 +21,12 @@ type Dumper struct {
 	MaskBools        bool // every bool field and every map[...]bool field
 	MaskPtrSlices    bool // every field that is a slice of pointers
 	SortStructSlices bool // slices of (non-pointer) structs are rendered sorted
+	// RootContainersOnly: of the ROOT struct only the container fields (maps, slices, pointers,
+	// interfaces) are rendered. Scalar and struct-valued fields at the top level of a component are
+	// flags, counters and cache entries derived from the containers (whatever their names or
+	// representation), which the queries - not the dump - have to keep honest.
+	RootContainersOnly bool
+	rootDone           bool
 	seen     map[unsafe.Pointer]int
 	b        strings.Builder
 	depth    int
@@ -168,8 +174,17 @@ func (d *Dumper) val(v reflect.Value) {
 			return
 		}
 		d.b.WriteString(tn + "{")
+		isRoot := d.RootContainersOnly && !d.rootDone
+		d.rootDone = true
 		for i := 0; i < v.NumField(); i++ {
 			f := t.Field(i)
+			if isRoot {
+				switch f.Type.Kind() {
+				case reflect.Map, reflect.Slice, reflect.Pointer, reflect.Interface:
+				default:
+					continue
+				}
+			}
 			if i > 0 {
 				d.b.WriteString(",")
 			}
